@@ -271,8 +271,11 @@ def main(argv=None):
 
 
 def write_evidence(pid, ev):
-    os.makedirs(os.path.join(VERIF, "evidence"), exist_ok=True)
-    path = os.path.join(VERIF, "evidence", f"{pid}.json")
+    # evidence/ only ever describes runs against /repo itself; runs pointed at a scratch tree
+    # (VERIF_REPO, e.g. the seeded-change matrix) write next to it, into an ignored directory
+    sub = "evidence" if bootstrap.repo_root() == os.path.realpath("/repo") else "evidence_scratch"
+    os.makedirs(os.path.join(VERIF, sub), exist_ok=True)
+    path = os.path.join(VERIF, sub, f"{pid}.json")
     try:
         import jsonschema
 
